@@ -248,8 +248,11 @@ def hello_mut(kind, m, tickets=None):
         for v in (0x0300, 0x0301, 0x0302, 0x0304, 0x0000, 0xffff):
             add("ver%04x" % v, dict(copy_hello(d), ver=v))
     elif kind == "ciphers-empty":
-        add("empty", dict(copy_hello(d), ciphers=b""))
-        add("odd", dict(copy_hello(d), ciphers=d["ciphers"][:3]))
+        if is_ch:
+            add("empty", dict(copy_hello(d), ciphers=b""))
+            add("odd", dict(copy_hello(d), ciphers=d["ciphers"][:3]))
+        else:
+            add("zero", dict(copy_hello(d), cipher=0))
     elif kind == "ciphers-unknown":
         if is_ch:
             add("unknown", dict(copy_hello(d), ciphers=b"\x00\x2f\xc0\x2b\xfa\xfa"))
